@@ -494,7 +494,13 @@ func (x *Exec) evalIndex(ctx *SpecCtx, base Value, idx *Term, e *Expr) Value {
 		}
 	case *Term:
 		if strings.HasPrefix(v.Sort, "(Array ") {
-			return b.Select(v, idx)
+			r := b.Select(v, idx)
+			if v.Op == "app" && r.Op == "select" {
+				if sf := x.db.SpecFns[v.Name]; sf != nil && sf.Bytes {
+					b.SetBounds(r, new(big.Int), big.NewInt(255))
+				}
+			}
+			return r
 		}
 	}
 	specFail("cannot index %T in %s", base, e.String())
@@ -1091,7 +1097,7 @@ func (x *Exec) absIndex(body *Term, v *Term) (*Term, *Term) {
 	}
 	var off *Term
 	switch {
-	case len(memOffs) == 1:
+	case len(memOffs) >= 1:
 		off = memOffs[0]
 	case len(memOffs) == 0 && len(specOffs) == 1:
 		off = specOffs[0]
